@@ -21,8 +21,15 @@
   OBLIGATION c12_unbounded_nesting_document
   OBLIGATION c12_unbounded_nesting_document_depth
   OBLIGATION c12_parser_depth_unbounded
+  OBLIGATION c12_numbers_table_covers_source
+  OBLIGATION c12_numbers_parse_total
+  OBLIGATION c12_numbers_answered
+  OBLIGATION c12_numbers_exact
+  OBLIGATION c12_numbers_id_exact
+  OBLIGATION c12_numbers_violated_by_seeded_bound
 -/
 import AGV.Lemmas.Hostile
+import AGV.Lemmas.HostileNum
 
 namespace AGV.Props.C12
 open AGV.Model.Hostile AGV.Lemmas.Hostile
@@ -160,5 +167,66 @@ theorem c12_parser_depth_unbounded (n : Nat) :
   have hlen := listDoc_length n
   simp only [parserRecursionDepth, Bool.not_true, Bool.false_and, Bool.false_eq_true, if_false]
   exact depthFrom_ge _ _ (12 * n + 26) hc _ 0 (by omega) (by simp only [AGV.Model.Peg.fuelFor, hlen]; omega)
+
+-- ------------------------------------------------------------------ (e) huge numbers
+
+section numbers
+open AGV.Gen.IntScalars AGV.Model.Scalars AGV.Model.HostileNum AGV.Lemmas.HostileNum
+open AGV.Spec.Scalars (GValue inIntDomain)
+
+/-- The integer table (extracted from every `impl ScalarType for` of integers.rs /
+    non_zero_integers.rs) and the name table (the same files plus floats.rs and id.rs) agree: every
+    source type registered under `Int` has a row, and nothing else has. -/
+theorem c12_numbers_table_covers_source :
+    table.map (·.name) = (AGV.Gen.NumScalars.graphqlName.filter (fun p => p.2 = "Int")).map (·.1) := by
+  decide
+
+/-- `<T as ScalarType>::parse` of EVERY integer scalar of the source is total: no value — any
+    integer whatever its size, float, string, null, … — reaches the `unwrap()` of a NonZero
+    constructor or any other panic.  Quantified over the generated table and all values. -/
+theorem c12_numbers_parse_total (t : Entry) (ht : t ∈ table) (v : GValue) :
+    parseInt t v ≠ .panic :=
+  parseInt_ne_panic t ht v
+
+/-- A number offered to a position of ANY built-in numeric input type — the twenty integer
+    scalars, `Float` (f32/f64), `ID` — is answered with data or with an error, never with a
+    crash: for every value the parsers can deliver, and in particular for every integer numeral
+    (`numAnswer`: 2^k ± 1, multiples of 2^8/2^16/2^32, numbers beyond u64, …). -/
+theorem c12_numbers_answered (ty : NTy) (h : ty.fromSource) :
+    (∀ v : GValue, answerValue ty v ≠ .crash) ∧ (∀ n : Int, numAnswer ty n ≠ .crash) :=
+  ⟨answerValue_ne_crash ty h, fun n => answerValue_ne_crash ty h (lexNumber n)⟩
+
+/-- WHICH answer, for an integer numeral at an integer position: data (the integer itself,
+    unwrapped and untruncated) exactly when it lies in the type's range and passes the `Int`
+    validator the schema registers (`i32`'s `is_i64()`: at most i64::MAX); an error otherwise. -/
+theorem c12_numbers_exact (t : Entry) (ht : t ∈ table) (n : Int) :
+    (inIntDomain t.name n ∧ n ≤ i64Max → numAnswer (.int t) n = .data (.int n)) ∧
+    (¬ (inIntDomain t.name n ∧ n ≤ i64Max) → numAnswer (.int t) n = .error) :=
+  ⟨fun h => numAnswer_int_accept t ht n h.1 h.2, numAnswer_int_reject t ht n⟩
+
+example : ∃ t ∈ table, t.name = "NonZeroU16" ∧ numAnswer (.int t) 65535 = .data (.int 65535) ∧
+    numAnswer (.int t) 65536 = .error ∧ numAnswer (.int t) 0 = .error := by decide
+
+/-- `ID` and `Float` positions: an integer numeral is data iff it is a JSON integer
+    (i64::MIN ..= u64::MAX) for `ID`; always for `Float`. -/
+theorem c12_numbers_id_exact (n : Int) :
+    (numAnswer .id n = if i64Min ≤ n ∧ n ≤ u64Max then .data (.int n) else .error) ∧
+    numAnswer .float n = .data .float :=
+  ⟨numAnswer_id n, numAnswer_float n⟩
+
+/-- The check is not vacuous: with the upper bound of `NonZeroU16::parse` widened to u32::MAX
+    (`seededTable`, the table srcfacts extracts from such a tree) the non-zero multiples of 65536
+    below 2^32 pass the range test, wrap to 0 in `n as u16` and reach `NonZeroU16::new(0).unwrap()`
+    — a crash — and their neighbours are silently truncated; the source-derived row answers all
+    three with an error. -/
+theorem c12_numbers_violated_by_seeded_bound :
+    (rowOf seededTable "NonZeroU16").map (fun t => numAnswer (.int t) 65536) = some .crash ∧
+    (rowOf seededTable "NonZeroU16").map (fun t => numAnswer (.int t) 4294901760) = some .crash ∧
+    (rowOf seededTable "NonZeroU16").map (fun t => numAnswer (.int t) 65537) = some (.data (.int 1)) ∧
+    (rowOf table "NonZeroU16").map (fun t => [65536, 4294901760, 65537].map (numAnswer (.int t))) =
+      some [.error, .error, .error] := by
+  decide
+
+end numbers
 
 end AGV.Props.C12
